@@ -280,6 +280,7 @@ class Patcher:
         self.fired = None
         self.in_outermost = 0
         self.fired_in_outermost = False
+        self.outermost_ended: List[str] = []
 
     def __enter__(self):
         import stackscope._customization as cu
@@ -337,7 +338,12 @@ class Patcher:
         def outermost(*a, **kw):
             P.in_outermost += 1
             try:
-                return orig_outer(*a, **kw)
+                r = orig_outer(*a, **kw)
+                P.outermost_ended.append("frame")
+                return r
+            except BaseException:
+                P.outermost_ended.append("raised")
+                raise
             finally:
                 P.in_outermost -= 1
 
@@ -620,7 +626,11 @@ class C05(PropCheck):
                 fired += 1
                 f = common_checks(st, p.fired)
                 if f:
-                    tag = " [fault fired inside a nested extract_outermost call]" if p.fired_in_outermost else ""
+                    # F13 (known): a fault met inside the glue's nested extract_outermost() call is dropped once that call has its
+                    # FRAME.  When the call ends without a frame it re-raises the recorded fault, which then is reported -- unless
+                    # its type is RuntimeError, which the glue takes for "no frames" (round-5 observation, same mechanism)
+                    f13 = p.fired_in_outermost and ("frame" in p.outermost_ended or isinstance(p.fired, RuntimeError))
+                    tag = " [fault fired inside a nested extract_outermost call]" if f13 else ""
                     problems.append(f"{kind}#{k} ({type(p.fired).__name__}): {f}{tag}")
                     continue
                 if kind in ("contexts_active_in_frame", "elaborate_context", "unwrap_context", "unwrap_context_generator") and not p.fired_in_outermost \
@@ -635,6 +645,44 @@ class C05(PropCheck):
                 if [g[0] for g in got] != p.emitted_at_fault or got != base_sig[:n]:
                     problems.append(f"{kind}#{k}: frames outward of the failure are not kept identical "
                                     f"({len(st.frames)} frames, {n} emitted before the fault)")
+            # pairs: a fault of this kind, then a fault of elaborate_frame at each later invocation -- both must be retrievable
+            if case.get("pairs", True) and kind != "elaborate_frame":
+                with Patcher(None, None) as pz:
+                    stackscope.extract(target, recurse_child_tasks=True)
+                n_el = pz.counts["elaborate_frame"]
+                for k in range(1, min(total, 12) + 1):
+                    for k2 in range(1, n_el + 1):
+                        with Patcher(kind, k, 0) as p1:
+                            p2 = Patcher("elaborate_frame", k2, 2)
+                            # second patcher shares the wrapped entry points: chain it by hand
+                            orig_tick = p1.tick
+
+                            def tick(attr, p1=p1, p2=p2, orig_tick=orig_tick):
+                                p2.counts[attr] = p2.counts.get(attr, 0) + 1
+                                if attr == "elaborate_frame" and p2.counts[attr] == p2.k and p2.fired is None and p1.fired is not None:
+                                    p2.fired = exc_type(2)(778)
+                                    p2.fired_in_outermost = p1.in_outermost > 0
+                                    p2.ended_mark = len(p1.outermost_ended)
+                                    raise p2.fired
+                                return orig_tick(attr)
+
+                            p1.tick = tick
+                            try:
+                                st = stackscope.extract(target, recurse_child_tasks=True)
+                            except Exception as e:
+                                problems.append(f"{kind}#{k} + elaborate_frame#{k2}: extract raised {type(e).__name__}: {e}")
+                                continue
+                        if p1.fired is None or p2.fired is None:
+                            continue
+                        fired += 1
+                        errs = errors_in(st)
+                        lost = [nm for nm, ex in (("first", p1.fired), ("second", p2.fired)) if not any(e is ex for e in errs)]
+                        f13a = p1.fired_in_outermost and ("frame" in p1.outermost_ended or isinstance(p1.fired, RuntimeError))
+                        f13b = p2.fired_in_outermost and ("frame" in p1.outermost_ended[p2.ended_mark:] or isinstance(p2.fired, RuntimeError))
+                        lost = [nm for nm in lost if not ((nm == "first" and f13a) or (nm == "second" and f13b))]
+                        if lost:
+                            problems.append(f"pair {kind}#{k} then elaborate_frame#{k2}: the {' and '.join(lost)} injected exception is not "
+                                            f"retrievable from any Stack.error of the result")
             return {"scenario": name, "kind": kind, "invocations": total, "fired": fired,
                     "base_frames": len(base.frames), "problems": problems[:40]}
         finally:
